@@ -153,6 +153,26 @@ def make_mutable_rebinds(repo):
     for n in walk_no_nested(fi.node):
         if isinstance(n, ast.Assign) and len(n.targets) == 1 and isinstance(n.targets[0], ast.Attribute) and norm(n.targets[0].value) == p:
             out[n.targets[0].attr] = n.value
+        # setattr(cls, 'name', impl)
+        if isinstance(n, ast.Call) and norm(n.func) == 'setattr' and len(n.args) == 3 and norm(n.args[0]) == p \
+                and isinstance(n.args[1], ast.Constant) and isinstance(n.args[1].value, str):
+            out[n.args[1].value] = n.args[2]
+        # table-driven: for name, impl in <tuple of (str, expr) pairs>: setattr(cls, name, impl)
+        if isinstance(n, ast.For) and isinstance(n.target, ast.Tuple) and len(n.target.elts) == 2 and all(isinstance(x, ast.Name) for x in n.target.elts):
+            kn, vn = n.target.elts[0].id, n.target.elts[1].id
+            sets = [c for c in ast.walk(n) if isinstance(c, ast.Call) and norm(c.func) == 'setattr' and len(c.args) == 3
+                    and norm(c.args[0]) == p and norm(c.args[1]) == kn and norm(c.args[2]) == vn]
+            table = n.iter
+            if isinstance(table, ast.Name):
+                bl = fi.module.bindings.get(table.id) or []
+                if len(bl) == 1 and bl[0][0] == 'assign':
+                    table = bl[0][1]
+            if sets and isinstance(table, (ast.Tuple, ast.List)):
+                for pair in table.elts:
+                    if isinstance(pair, (ast.Tuple, ast.List)) and len(pair.elts) == 2 and isinstance(pair.elts[0], ast.Constant) and isinstance(pair.elts[0].value, str):
+                        out[pair.elts[0].value] = pair.elts[1]
+                    else:
+                        raise AnalysisError('__make_mutable: unrecognised entry in the override table')
     return fi, out
 
 
@@ -397,7 +417,9 @@ def rule_R6(ctx, repo, eng, imm, mut, rid='C09.R6'):
             g = getattr(n, '_parent', None)
             want = '%s.__class__ is %s' % (arg, c.name)
             alt = 'type(%s) is %s' % (arg, c.name)
-            if not (isinstance(g, ast.If) and n in g.body and norm(g.test) in (want, alt)):
+            from ..escape import implied_at
+            if not (isinstance(g, ast.If) and n in g.body and norm(g.test) in (want, alt)) \
+                    and not (implied_at(repo, f, n, want) is True or implied_at(repo, f, n, alt) is True):
                 bad = True
                 r.violated(key, common.site_of(f, n), '%s returns its argument itself under `%s`: only an object whose class is exactly %s may be shared (a mutable subclass instance would be aliased)'
                            % (key, norm(g.test) if isinstance(g, ast.If) else 'no guard', c.name))
